@@ -314,6 +314,11 @@ def build_instances(rng, dtype, batch, n):
         out.append(X("SumKronecker[singular|s=2^-10]", lambda: __import__("linear_operator").operators.SumKroneckerLinearOperator(
             KroneckerProductLinearOperator(cl(K1s), cl(K2)), KroneckerProductLinearOperator(cl(C3) * s_, cl(C4))),
             C.kron(K1s, K2) + s_ * C.kron(C3, C4), None, tags=("singular", "no-lanczos")))
+    # ---- a Cholesky / triangular operator times a positive constant (structure-preserving rewrite; the wrapped tensor becomes non-dense)
+    out.append(X("Chol[lower]*2", lambda: CholLinearOperator(TriangularLinearOperator(cl(L))) * 2.0, 2 * (L @ L.mT), None, tags=("tri-nondense",)))
+    out.append(X("Chol[upper]*2", lambda: CholLinearOperator(TriangularLinearOperator(cl(U), upper=True), upper=True) * 2.0, 2 * (U.mT @ U), None,
+                 tags=("tri-nondense",)))
+    out.append(X("Triangular[lower]*2", lambda: TriangularLinearOperator(cl(L)) * 2.0, 2 * L, None, pd=False, tags=("tri-nondense",)))
     # ---- known-defect instances (D10)
     Lb = torch.tril(ri(rng, (*batch, 2, n, n), -2, 2, dtype)) * (1 - eye(n)) + torch.diag_embed(ri(rng, (*batch, 2, n), 1, 2, dtype))
     out.append(X("Triangular(BlockDiag)", lambda: TriangularLinearOperator(BlockDiagLinearOperator(TriangularLinearOperator(cl(Lb)))),
@@ -325,6 +330,80 @@ def build_instances(rng, dtype, batch, n):
         if x.dense is None:
             x.dense = None
     return out
+
+
+def size1_instances(rng, dtype, batch):
+    """1x1 operators of every structured class and 1x1 FACTORS / blocks in every position, values != 1 (a wrong power shows)."""
+    from linear_operator.operators import (
+        BatchRepeatLinearOperator, BlockDiagLinearOperator, BlockInterleavedLinearOperator, CholLinearOperator, ConstantDiagLinearOperator,
+        DenseLinearOperator, DiagLinearOperator, KroneckerProductAddedDiagLinearOperator, KroneckerProductDiagLinearOperator,
+        KroneckerProductLinearOperator, RootLinearOperator, SumKroneckerLinearOperator, ToeplitzLinearOperator, TriangularLinearOperator,
+        AddedDiagLinearOperator, LowRankRootAddedDiagLinearOperator, LowRankRootLinearOperator)
+    out = []
+    for it in C.instances(rng, dtype, batch, 1, psd=True, depth=2):
+        N = it.dense.shape[-1]
+        out.append(X(it.name + "@n1", it.build, it.dense, desc_of(it.name, 1, N), tags=set(it.tags) | {"size1"}))
+    cl = lambda t: t.clone()
+    eye = lambda k: torch.eye(k, dtype=dtype)
+    sc = lambda lo=2, hi=4: C.ri(rng, (*batch, 1, 1), lo, hi, dtype)       # a 1x1 matrix with entry in 2..4
+    add = lambda name, mk, dense, desc: out.append(X(name, mk, dense, desc, tags=("size1",)))
+    c = sc()
+    add("Dense1", lambda: DenseLinearOperator(cl(c)), c, "gen 1")
+    add("Diag1", lambda: DiagLinearOperator(cl(c[..., 0])), c, "diag 1")
+    add("ConstantDiag1", lambda: ConstantDiagLinearOperator(cl(c[..., 0]), diag_shape=1), c, "diag 1")
+    add("Toeplitz1", lambda: ToeplitzLinearOperator(cl(c[..., 0])), c, "gen 1")
+    l1 = sc(2, 3)
+    add("Chol1[lower]", lambda: CholLinearOperator(TriangularLinearOperator(cl(l1))), l1 * l1, "chol 1")
+    add("Chol1[upper]", lambda: CholLinearOperator(TriangularLinearOperator(cl(l1), upper=True), upper=True), l1 * l1, "chol 1")
+    add("Root1", lambda: RootLinearOperator(cl(l1)), l1 * l1, "gen 1")
+    add("AddedDiag1", lambda: AddedDiagLinearOperator(DenseLinearOperator(cl(c)), DiagLinearOperator(cl(l1[..., 0]))), c + l1, "ad 1")
+    add("LowRankRootAddedDiag1", lambda: LowRankRootAddedDiagLinearOperator(LowRankRootLinearOperator(cl(l1)), DiagLinearOperator(cl(c[..., 0]))),
+        l1 * l1 + c, "lrrad 1 1 0")
+    rep = (2,) + (1,) * len(batch)
+    add("BatchRepeat(Dense1)", lambda: BatchRepeatLinearOperator(DenseLinearOperator(cl(c)), torch.Size(rep)), c.repeat(*rep, 1, 1), "brep gen 1")
+    b3 = C.ri(rng, (*batch, 3, 1, 1), 2, 4, dtype)
+    add("BlockDiag[1x1 blocks]", lambda: BlockDiagLinearOperator(DenseLinearOperator(cl(b3))), C.block_diag_dense(b3), "block 3 gen 1")
+    add("BlockInterleaved[1x1 blocks]", lambda: BlockInterleavedLinearOperator(DenseLinearOperator(cl(b3))), C.block_interleaved_dense(b3), "block 3 gen 1")
+    K2, K3, D3 = C.psd_int(rng, batch, 2, dtype), C.psd_int(rng, batch, 3, dtype), C.psd_int(rng, batch, 3, dtype)
+    a1, c1 = sc(), sc()
+    add("Kronecker(s1,Dense3)", lambda: KroneckerProductLinearOperator(cl(a1), cl(K3)), C.kron(a1, K3), "kron gen 1 gen 3")
+    add("Kronecker(Dense3,s1)", lambda: KroneckerProductLinearOperator(cl(K3), cl(a1)), C.kron(K3, a1), "kron gen 3 gen 1")
+    add("Kronecker(s1,Dense2,Dense3)", lambda: KroneckerProductLinearOperator(cl(a1), cl(K2), cl(K3)), C.kron(C.kron(a1, K2), K3), "kron3 gen 1 gen 2 gen 3")
+    add("Kronecker(Dense2,s1,Dense3)", lambda: KroneckerProductLinearOperator(cl(K2), cl(a1), cl(K3)), C.kron(C.kron(K2, a1), K3), "kron3 gen 2 gen 1 gen 3")
+    add("Kronecker(Dense2,Dense3,s1)", lambda: KroneckerProductLinearOperator(cl(K2), cl(K3), cl(a1)), C.kron(C.kron(K2, K3), a1), "kron3 gen 2 gen 3 gen 1")
+    cv = C.ri(rng, (*batch, 1), 2, 4, dtype)
+    add("KroneckerAddedDiag[const](s1,Dense3)", lambda: KroneckerProductAddedDiagLinearOperator(
+        KroneckerProductLinearOperator(cl(a1), cl(K3)), ConstantDiagLinearOperator(cl(cv), diag_shape=3)),
+        C.kron(a1, K3) + cv.unsqueeze(-1) * eye(3), "kpc gen 1 gen 3")
+    add("KroneckerAddedDiag[const](Dense3,s1)", lambda: KroneckerProductAddedDiagLinearOperator(
+        KroneckerProductLinearOperator(cl(K3), cl(a1)), ConstantDiagLinearOperator(cl(cv), diag_shape=3)),
+        C.kron(K3, a1) + cv.unsqueeze(-1) * eye(3), "kpc gen 3 gen 1")
+    e1, e3 = C.ri(rng, (*batch, 1), 2, 4, dtype), C.ri(rng, (*batch, 1), 2, 4, dtype)
+    x_ = X("KroneckerAddedDiag[kronconst](s1,Dense3)", lambda: KroneckerProductAddedDiagLinearOperator(
+        KroneckerProductLinearOperator(cl(a1), cl(K3)),
+        KroneckerProductDiagLinearOperator(ConstantDiagLinearOperator(cl(e1), 1), ConstantDiagLinearOperator(cl(e3), 3))),
+        C.kron(a1, K3) + C.kron(e1.unsqueeze(-1) * eye(1), e3.unsqueeze(-1) * eye(3)), None, tags=("size1", "chol-desc-gen"))
+    out.append(x_)
+    dd1, dd3 = C.ri(rng, (*batch, 1), 2, 4, dtype), C.ri(rng, (*batch, 3), 1, 4, dtype)
+    out.append(X("KroneckerAddedDiag[krondiag](s1,Dense3)", lambda: KroneckerProductAddedDiagLinearOperator(
+        KroneckerProductLinearOperator(cl(a1), cl(K3)),
+        KroneckerProductDiagLinearOperator(DiagLinearOperator(cl(dd1)), DiagLinearOperator(cl(dd3)))),
+        C.kron(a1, K3) + C.kron(torch.diag_embed(dd1), torch.diag_embed(dd3)), None, tags=("size1", "chol-desc-gen")))
+    # scalar task variance (x) data kernel + scalar noise variance (x) noise covariance, the 1x1 factor in either position
+    out.append(X("SumKronecker(s1xDense3,s1xDense3)", lambda: SumKroneckerLinearOperator(
+        KroneckerProductLinearOperator(cl(a1), cl(K3)), KroneckerProductLinearOperator(cl(c1), cl(D3))),
+        C.kron(a1, K3) + C.kron(c1, D3), None, tags=("size1",)))
+    out.append(X("SumKronecker(Dense3xs1,Dense3xs1)", lambda: SumKroneckerLinearOperator(
+        KroneckerProductLinearOperator(cl(K3), cl(a1)), KroneckerProductLinearOperator(cl(D3), cl(c1))),
+        C.kron(K3, a1) + C.kron(D3, c1), None, tags=("size1",)))
+    out.append(X("SumKronecker(s1xs1,s1xs1)", lambda: SumKroneckerLinearOperator(
+        KroneckerProductLinearOperator(cl(a1), cl(l1)), KroneckerProductLinearOperator(cl(c1), cl(c))),
+        C.kron(a1, l1) + C.kron(c1, c), None, tags=("size1",)))
+    return out
+
+
+SIZE1_CFGS = {"default", "mc0|tol1e-6", "mc0|fastoff", "mc=n|tol1e-6", "mc=n-1|tol1e-6", "mc0|tol1"}
+MAXIT8_INSTANCES = {"Dense[psd]", "AddedDiag", "Kronecker", "BlockDiag", "BatchRepeat", "Dense1", "Kronecker(s1,Dense3)"}
 
 
 def big_instances(rng, dtype, n):
@@ -692,6 +771,8 @@ def configs_for(N, quick):
             base.append((f"default|ldt={sn}{cn}", {"lds": sd, "ldc": cd}))
             if N > 3:
                 base.append((f"mc=3|tol1e-6|ldt={sn}{cn}", {"mc": 3, "tol": 1e-6, "maxit": 200, "lds": sd, "ldc": cd}))
+    if N <= 4:
+        base.append(("mc0|tol1e-6|maxit8", {"mc": 0, "tol": 1e-6, "maxit": 8}))  # max_cg_iterations >= 2n but below the Lanczos-quadrature default
     if N > 3:
         base.append(("mc=3|tol1e-6", {"mc": 3, "tol": 1e-6, "maxit": 200}))  # factors below, product above the threshold
     return base
@@ -726,7 +807,10 @@ def run(chk, only=None):
                 if dtype == F32 and (n != 3 or len(batch) > 1):
                     continue
                 grng = random.Random(f"C04:{chk.seed}:{dtype}:{batch}:{n}")
-                for x in build_instances(grng, dtype, batch, n):
+                xs = build_instances(grng, dtype, batch, n)
+                if n == sizes[0] and len(batch) <= 1:
+                    xs += size1_instances(random.Random(f"C04:{chk.seed}:{dtype}:{batch}:size1"), dtype, batch)
+                for x in xs:
                     N = (x.dense if x.dense is not None else x.solve_mat).shape[-1]
                     for cfgname, cfg in configs_for(N, quick):
                         if dtype == F32 and cfgname not in ("default", "mc0|tol1e-6", "mc0|fastoff"):
@@ -737,6 +821,10 @@ def run(chk, only=None):
                         if "ldt=s32" in cfgname and "singular" in x.tags:
                             continue  # kappa ~ 1e5: a float32 eigendecomposition is not expected to resolve the noise level
                         if "kronfactor" in x.tags and cfgname not in KRONFACTOR_CFGS:
+                            continue
+                        if "size1" in x.tags and cfgname not in SIZE1_CFGS and not (cfgname.endswith("maxit8") and x.name in MAXIT8_INSTANCES):
+                            continue
+                        if cfgname.endswith("maxit8") and x.name not in MAXIT8_INSTANCES:
                             continue
                         if "no-lanczos" in x.tags and cfg.get("fast", True) and cfg.get("mc", defaults["mc"]) < max(2, n):
                             continue  # factors above max_cholesky_size would be diagonalised / rooted by Lanczos (toleranced path)
